@@ -9,7 +9,7 @@
    hypothesis of C01_no_collision_means_content (the only place where line content enters). *)
 From Coq Require Import List ZArith NArith.
 From PP Require Import Base.Lines Gen.Src_dedupe Probing.ProbingDefs Tools.DedupeDefs Tools.DedupeProofs
-  Tools.DedupeFull Tools.DedupeFullProofs Fields.FieldsDefs Fields.FieldsProofs Hash.MurmurDefs.
+  Tools.DedupeFull Tools.DedupeFullProofs Tools.LinesProofs Fields.FieldsDefs Fields.FieldsProofs Hash.MurmurDefs.
 Import ListNotations.
 Local Open Scope N_scope.
 
@@ -187,16 +187,30 @@ Proof.
 Qed.
 Print Assumptions C01_tool_idempotent_refuted.
 
-(* what does hold on bytes: idempotence for outputs that are read back as the same lines
-   (i.e. no output line ends in CR -- CR stripping is then the identity on them).
+(* what does hold on bytes: idempotence whenever CR stripping is the identity on the lines dedupe wrote
+   (none of them ends in CR) -- then the output is read back as exactly the lines that were written.
    MISSING for the unconditional byte-level statement: nothing; it is false (theorem above). *)
 Theorem C01_tool_idempotent_partial :
   forall (key : list Z -> N) (input out : list Z),
   dedupe_tool key input = Ok out ->
-  records newline true out = first_occ (list Z) key (records newline true input) ->
+  (forall l, In l (first_occ (list Z) key (records newline true input)) -> strip_cr l = l) ->
   dedupe_tool key out = Ok out.
 Proof.
-  intros key input out H Hrec. rewrite C01_tool_bytes in H. injection H as <-.
-  rewrite C01_tool_bytes. rewrite Hrec. f_equal. f_equal. apply first_occ_from_idem.
+  intros key input out H Hcr. rewrite C01_tool_bytes in H. injection H as <-.
+  rewrite C01_tool_bytes.
+  assert (Hnd : forallb (no_delim newline) (first_occ (list Z) key (records newline true input)) = true).
+  { apply forallb_forall. intros l Hl.
+    pose proof (records_nodelim newline true input) as Hall. rewrite forallb_forall in Hall. apply Hall.
+    eapply Subseq_In; [apply first_occ_from_subseq|exact Hl]. }
+  rewrite (records_unrecords_cr newline _ Hnd Hcr). f_equal. f_equal. apply first_occ_from_idem.
 Qed.
 Print Assumptions C01_tool_idempotent_partial.
+
+(* non-vacuity of its hypotheses: ordinary text lines *)
+Example C01_nonvacuous_idempotent_bytes :
+  (forall l, In l (first_occ (list Z) wkey (records newline true [97; 10; 98; 13; 10; 97; 10]%Z)) -> strip_cr l = l) /\
+  dedupe_tool wkey [97; 10; 98; 13; 10; 97; 10]%Z = Ok [97; 10; 98; 10]%Z.
+Proof.
+  split; [|vm_compute; reflexivity].
+  intros l H. vm_compute in H. destruct H as [<-|[<-|[]]]; reflexivity.
+Qed.
